@@ -1586,10 +1586,11 @@ class ValueString(Value):
                     datetime.datetime.strptime(self.value, "%Y%m%d")
                 )
         except ValueError:
-            raise CklRuntimeError(
-                ValueString("ERROR"),
-                "Cannot convert " + str(self.value) + " to date",
-            )
+            pass
+        raise CklRuntimeError(
+            ValueString("ERROR"),
+            "Cannot convert " + str(self.value) + " to date",
+        )
 
     def asPattern(self):
         return ValuePattern(self.value)
